@@ -109,6 +109,17 @@ def check_qft(case, acc):
         return
     if not isinstance(q, int) and arg != list(q):
         bad("argument-mutated", {"after": arg})
+    if not isinstance(q, int):
+        # the same register handed over in other container types: same circuit (a type the unchanged code refuses is not required)
+        for tname, alt in (("tuple", tuple(q)), ("numpy-array", np.array(list(q))), ("numpy-ints-in-list", [np.int64(x) for x in q])):
+            acc.ev()
+            try:
+                c_alt = get_qft_circuit(alt, n_qubits=nq, inverse=inv, swap=swap)
+            except Exception:
+                acc.count(f"qft_container_type_refused[{tname}]")
+                continue
+            if gl(c_alt) != gl(c) or c_alt.width != c.width:
+                bad(f"container-type-changes-the-circuit[{tname}]", {"list_form": gl(c), "other_form": gl(c_alt)})
     W = c.width
     want_w = nq if nq else max(L) + 1
     if W != want_w:
